@@ -1404,7 +1404,8 @@ Qed.
 
 Lemma step_other_same_lk : forall g o,
   match o with
-  | SetGeom _ _ | IopSet _ _ _ | IopIn _ _ _ _ | IopChild _ _ _ _ _ | SetDiv _ _ _ _ | Dedup _ | Relink => True
+  | SetGeom _ _ | IopSet _ _ _ | IopIn _ _ _ _ | IopChild _ _ _ _ _ | SetDiv _ _ _ _ | SetSide _ _ _ _ _
+  | Dedup _ | Relink => True
   | _ => same_lk g (fst (step g o))
   end.
 Proof.
@@ -1435,6 +1436,7 @@ Proof.
   - apply iop_in_inv. exact V.
   - apply iop_child_inv. exact V.
   - apply set_div_inv. exact V.
+  - discriminate.
   - apply dedup_inv; [apply dedup_map_ok_spec; exact S | exact V].
   - discriminate.
 Qed.
@@ -1445,11 +1447,13 @@ Proof.
   apply andb_true_iff in S. destruct S as [S1 S2]. apply IH; [apply step_inv; assumption | exact S2].
 Qed.
 
-(* a program of API operations: everything but the private pointer resolution *)
+(* a program of API operations: everything but the private pointer resolution and a side taken from
+   another cell's tree (foreign_side_links) *)
 Fixpoint no_relink (ops : list op) : bool :=
   match ops with
   | [] => true
   | Relink :: _ => false
+  | SetSide _ _ _ _ _ :: _ => false
   | Dedup m :: r => andb (dedup_map_ok m) (no_relink r)
   | _ :: r => no_relink r
   end.
@@ -1459,6 +1463,52 @@ Proof.
   destruct o; simpl in *; try (apply IH; exact H); try discriminate.
   apply andb_true_iff in H. destruct H as [H1 H2]. rewrite H1. simpl. apply IH. exact H2.
 Qed.
+
+(* ---- a side taken from another cell's geometry *)
+Lemma set_side_links : forall g c p sd c2 p2, Inv g -> LinksAll (fst (set_side g c p sd c2 p2)).
+Proof.
+  intros g c p sd c2 p2 V. unfold set_side.
+  destruct (c_geom (cellf g c)) as [t|] eqn:Eg; [|apply V].
+  destruct (c_geom (cellf g c2)) as [t2|]; [|apply V].
+  destruct (node_at t p) as [parent|] eqn:Ep; [|apply V].
+  destruct (node_at t (p ++ [sd])) as [old|]; [|apply V].
+  destruct (node_at t2 p2) as [sub|]; [|apply V].
+  assert (Ot : owned c t) by (apply (proj2 V); exact Eg).
+  assert (Op : get_cp parent = Some c) by (apply owned_cp; apply (node_at_owned p c t parent Ot Ep)).
+  rewrite Op. destruct (link_side g (Some c) sub) as [[g1 sub1] ok] eqn:E.
+  apply link_side_spec in E. destruct E as (G & F & Lv & I & R & _).
+  pose proof (LinksAll_grows _ _ G (proj1 V)) as L1. destruct ok; simpl; [|exact L1].
+  intro x. destruct (Nat.eq_dec x c) as [->|N].
+  - rewrite cellf_set_cell_same. intros h Hh isc. simpl in Hh. inversion Hh; subst h.
+    assert (K : incl (leaves isc (replace_at t (p ++ [sd]) sub1)) (lst isc (cellf g1 c))).
+    { eapply incl_tran; [apply replace_at_leaves|]. apply incl_app.
+      - destruct (G c) as [_ Inc]. eapply incl_tran; [apply (cell_leaves_in g c t isc V Eg) | apply Inc].
+      - rewrite Lv. apply (I eq_refl c eq_refl). }
+    destruct isc; exact K.
+  - rewrite cellf_set_cell_other by exact N. apply L1.
+Qed.
+
+Lemma quiet_op_same_lk : forall g o, quiet_op o = true -> same_lk g (fst (step g o)).
+Proof.
+  intros g o H. pose proof (step_other_same_lk g o) as K. destruct o; try discriminate; exact K.
+Qed.
+Lemma run_quiet : forall ops g, LinksAll g -> forallb quiet_op ops = true -> LinksAll (run g ops).
+Proof.
+  induction ops as [|o ops IH]; intros g L H; simpl in *; [exact L|].
+  apply andb_true_iff in H. destruct H as [H1 H2]. apply IH; [|exact H2].
+  eapply LinksAll_same_lk; [apply quiet_op_same_lk; exact H1 | exact L].
+Qed.
+Lemma run_app : forall a b g, run g (a ++ b) = run (run g a) b.
+Proof. induction a as [|o a IH]; intros b g; simpl; [reflexivity | apply IH]. Qed.
+
+Theorem foreign_side_links : forall ops1 c p sd c2 p2 ops2 g,
+  Inv g -> no_relink ops1 = true -> forallb quiet_op ops2 = true ->
+  LinksAll (run g (ops1 ++ SetSide c p sd c2 p2 :: ops2)).
+Proof.
+  intros ops1 c p sd c2 p2 ops2 g V N Q. rewrite run_app. simpl. apply run_quiet; [|exact Q].
+  apply set_side_links. apply run_inv; [exact V | apply no_relink_all_safe; exact N].
+Qed.
+
 
 Lemma read_then_inv : forall g0 g,
   Raw g0 -> Linked g0 -> update_pointers g0 = (g, ROk) ->
@@ -1494,7 +1544,7 @@ Qed.
 
 Lemma geometry_ops_frameG : forall g o,
   match o with
-  | SetGeom _ _ | IopSet _ _ _ | IopIn _ _ _ _ | IopChild _ _ _ _ _ | SetDiv _ _ _ _
+  | SetGeom _ _ | IopSet _ _ _ | IopIn _ _ _ _ | IopChild _ _ _ _ _ | SetDiv _ _ _ _ | SetSide _ _ _ _ _
   | SetMat _ _ | SetFill _ _ | SetFtr _ _ | SetSurfTr _ _ | SetNum _ _ _ => frameG g (fst (step g o))
   | _ => True
   end.
@@ -1533,6 +1583,14 @@ Proof.
     destruct cp as [c'|]; [|apply set_cell_frameG; reflexivity].
     destruct (cell_add g c' isc d) as [g2 b2] eqn:E. apply cell_add_spec in E. destruct E as (_ & F & _).
     destruct b2; simpl; [|exact F]. eapply frameG_trans; [exact F | apply set_cell_frameG; reflexivity].
+  - unfold set_side. destruct (c_geom (cellf g c)) as [t|]; [|apply frameG_refl].
+    destruct (c_geom (cellf g c2)) as [t2|]; [|apply frameG_refl].
+    destruct (node_at t p) as [parent|]; [|apply frameG_refl].
+    destruct (node_at t (p ++ [side])) as [old|]; [|apply frameG_refl].
+    destruct (node_at t2 p2) as [sub|]; [|apply frameG_refl].
+    destruct (link_side g (get_cp parent) sub) as [[g1 sub1] ok] eqn:E. apply link_side_spec in E.
+    destruct E as (_ & F & _). destruct ok; simpl; [|exact F].
+    eapply frameG_trans; [exact F | apply set_cell_frameG; reflexivity].
   - apply set_cell_frameG. reflexivity.
   - apply set_cell_frameG. reflexivity.
   - apply set_cell_frameG. reflexivity.
